@@ -129,27 +129,94 @@ def free_consts(t):
 
 
 def close_free(f):
-    """the universal closure over FREE! constants (what a caller may assume)"""
+    """the universal closure over FREE! constants (what a caller may assume); distributed over conjunctions so that
+    every conjunct is quantified over its own variables only"""
+    if z3.is_and(f):
+        return z3.And(*[close_free(c) for c in f.children()])
     fc = free_consts(f)
     return z3.ForAll(fc, f) if fc else f
 
 
+def _ref_terms(t, limit=8):
+    """ground Int terms of the form ref(x) occurring in t: the object references the goal talks about"""
+    out, seen, stack = {}, set(), [t]
+    while stack and len(out) < limit:
+        x = stack.pop()
+        if x.get_id() in seen:
+            continue
+        seen.add(x.get_id())
+        if z3.is_quantifier(x):
+            continue
+        if z3.is_app(x):
+            if x.decl().name() == "ref" and x.num_args() == 1 and _closed(x):
+                out[x.get_id()] = x
+            stack.extend(x.children())
+    return list(out.values())
+
+
 def instantiate(hyps, goal):
-    """engine rule: universally quantified hypotheses with one bound variable are instantiated at the free
-    constants of the goal (same sort).  Pure instantiation: sound."""
+    """engine rule: universally quantified hypotheses are instantiated at the free constants of the goal and, for
+    reference-sorted variables, at the object references the goal mentions.  Pure instantiation: sound."""
+    import itertools
     fc = free_consts(goal)
-    if not fc:
+    cands = list(fc)
+    refs = _ref_terms(goal)
+    if not cands and not refs:
         return []
     out = []
     for q in hyps:
-        if z3.is_quantifier(q) and q.is_forall() and q.num_vars() == 1:
-            for cst in fc:
-                if cst.sort() == q.var_sort(0):
-                    out.append(z3.substitute_vars(q.body(), cst))
+        for qq in _top_foralls(q):
+            n = qq.num_vars()
+            if n > 3:
+                continue
+            per_var = []
+            for i in range(n):
+                so = qq.var_sort(i)
+                opts = [c for c in cands if c.sort() == so]
+                if so == z3.IntSort():
+                    opts = opts + refs
+                per_var.append(opts[:8])
+            if any(not o for o in per_var):
+                continue
+            count = 0
+            for combo in itertools.product(*per_var):
+                # substitute_vars takes the terms for de Bruijn indices 0..n-1, i.e. the last bound variable first
+                out.append(z3.substitute_vars(qq.body(), *reversed(combo)))
+                count += 1
+                if count >= 40:
+                    break
     return out
 
 
+def _top_foralls(t):
+    """universal quantifiers at the top of a hypothesis (possibly under conjunctions)"""
+    if z3.is_quantifier(t):
+        return [t] if t.is_forall() else []
+    if z3.is_and(t):
+        out = []
+        for c in t.children():
+            out.extend(_top_foralls(c))
+        return out
+    return []
+
+
 _SYM = {}
+_HEAVY = {}
+
+
+def heavy_strings(f):
+    """does the formula use string operations that make satisfiability checks slow (substrings, lengths of
+    concatenations, regular expressions, containment)?  Such facts are left out of *feasibility* queries only."""
+    i = f.get_id()
+    hit = _HEAVY.get(i)
+    if hit is not None:
+        return hit[1]
+    sx = f.sexpr()
+    r = any(k in sx for k in ("str.substr", "str.in_re", "str.contains", "str.prefixof", "str.suffixof", "str.++",
+                              "str.indexof", "str.replace", "str.from_int", "str.to_int"))
+    _HEAVY[i] = (f, r)
+    return r
+
 
 
 def _symbols(t):
